@@ -25,7 +25,7 @@ class C11(Prop):
     reach = ["steer_fold_10000", "steer_final_ffff", "steer_raw_multiple", "udp_csum_ffff", "ipv6_tcp", "ipv6_udp",
              "ipv4_udp", "odd_length", "one_byte_payload", "padded_frame", "bad_field", "bad_bitflip", "subset_ge_2",
              "empty_B", "retransmitted_segment", "tcp_and_udp_between_same_hosts",
-             "server_port_other_than_443", "udp_without_checksum"]
+             "server_port_other_than_443", "udp_without_checksum", "c_run_after_aborted_run_without_c"]
 
     def plan(self, tier):
         p = super().plan(tier)
@@ -173,7 +173,22 @@ class C11(Prop):
             sb.setdefault("cli", {}).pop("c", None)
             exa = world.expand(sa)
             exb = world.expand(sb)
-            ra = run_export(lane, sa, exa, out)
+            if B and spec.get("bseed", 0) % 4 == 1 and B is Bs[min(1, len(Bs) - 1)]:
+                # the -c run follows, in the same process, a run WITHOUT -c that was aborted by a capture truncated inside
+                # its last block: what that run had set up must not decide whether this one verifies
+                s0_ = copy.deepcopy(sa)
+                s0_.get("cli", {}).pop("c", None)
+                ex0_ = world.expand(s0_)
+                rr = lane.sut(spec.get("hashseed", 0)).run(ex0_["capture"][:-9], ex0_["keylog"], ex0_["argv"],
+                                                           extra_runs=[dict(capture=exa["capture"], keylog=exa["keylog"],
+                                                                            argv_opts=exa["argv"])])
+                out.exports += 2
+                out.count("reach:c_run_after_aborted_run_without_c")
+                ra = rr[1]
+            else:
+                ra = run_export(lane, sa, exa, out)
+            if False:
+                ra = run_export(lane, sa, exa, out)
             rb = run_export(lane, sb, exb, out)
             out.exports -= 1    # one evaluation = one pair
             if not B:
